@@ -529,22 +529,37 @@ func TestC13Perm(t *testing.T) {
 	if _, err := os.Stat(filepath.Join(os.Getenv("VERIF_BIN_DIR"), "vhelper")); err != nil {
 		t.Fatalf("VERIF-UNDECIDED vhelper binary not found: %v", err)
 	}
-	// a base directory that uid 65534 can traverse
-	base, err := os.MkdirTemp("", "verif-c13-")
-	if err != nil {
-		t.Fatal(err)
+	// a base directory that uid 65534 can traverse (the scratch directory of the run may lie below a directory
+	// closed to others, e.g. /root), and in which dropping privileges makes permission bits effective
+	var base string
+	var lastErr error
+	for _, parent := range []string{os.TempDir(), "/tmp", "/var/tmp", "/dev/shm"} {
+		b, err := os.MkdirTemp(parent, "verif-c13-")
+		if err != nil {
+			lastErr = err
+			continue
+		}
+		_ = os.Chmod(b, 0o755)
+		probe := filepath.Join(b, "probe")
+		_ = os.Mkdir(probe, 0o755)
+		doc := func(dev string) []byte {
+			return []byte(`{"cdiVersion":"0.3.0","kind":"v1.com/gpu","devices":[{"name":"` + dev + `","containerEdits":{"env":["A=b"]}}]}`)
+		}
+		_ = os.WriteFile(filepath.Join(probe, "open.json"), doc("d0"), 0o644)
+		_ = os.WriteFile(filepath.Join(probe, "p.json"), doc("d1"), 0o000)
+		pv, err := runView([]string{probe})
+		if err == nil && len(pv.Errors[filepath.Join(probe, "p.json")]) > 0 && len(pv.Devices) == 1 {
+			base = b
+			break
+		}
+		lastErr = fmt.Errorf("below %s: helper error %v", parent, err)
+		os.RemoveAll(b)
+	}
+	if base == "" {
+		rec.Label("env:permission-faults-not-effective-skipped")
+		t.Skipf("VERIF-ENV-SKIP permission faults are not effective in this environment (%v)", lastErr)
 	}
 	defer os.RemoveAll(base)
-	_ = os.Chmod(base, 0o755)
-	// probe: does dropping privileges make permission bits effective here?
-	probe := filepath.Join(base, "probe")
-	_ = os.Mkdir(probe, 0o755)
-	_ = os.WriteFile(filepath.Join(probe, "p.json"), []byte(`{"cdiVersion":"0.3.0","kind":"v1.com/gpu","devices":[{"name":"d0","containerEdits":{"env":["A=b"]}}]}`), 0o000)
-	pv, err := runView([]string{probe})
-	if err != nil || len(pv.Errors[filepath.Join(probe, "p.json")]) == 0 {
-		rec.Label("env:permission-faults-not-effective-skipped")
-		t.Skipf("permission faults are not effective in this environment (%v)", err)
-	}
 	seq := 0
 	rapid.Check(t, func(t *rapid.T) {
 		seq++
@@ -651,7 +666,7 @@ func TestC13ReadFaults(t *testing.T) {
 	tl := newC10Tools(t)
 	if tl.strace == "" {
 		rec.Label("env:strace-unavailable-skipped")
-		t.Skip("strace not available")
+		t.Skip("VERIF-ENV-SKIP strace not available")
 	}
 	sc := newScratch(t)
 	rapid.Check(t, func(t *rapid.T) {
@@ -693,7 +708,7 @@ func TestC13ReadFaults(t *testing.T) {
 		_, all, _, err := runView("")
 		if err != nil {
 			rec.Label("env:strace-unavailable-skipped")
-			t.Skipf("strace cannot trace here: %v", err)
+			t.Skipf("VERIF-ENV-SKIP strace cannot trace here: %v", err)
 		}
 		// calls of the main thread that touch a configured directory or a Spec file in it
 		type target struct {
